@@ -19,6 +19,9 @@ let rec err_of (s : sexp) : err = match s with
   | L [A "detail"; a; e] -> EDetail (b_of a, err_of e)
   | L [A "source"; f; l; fn; e] -> ESource (b_of f, z_of l, b_of fn, err_of e)
   | L [A "constraint"; a; e] -> EConstraint (b_of a, err_of e)
+  (* errors.Join: the library's walkers follow single Unwrap only, so a joined error is a base error whose text
+     is the texts of its parts, one per line (decorations inside the parts are not seen) *)
+  | L [A "join"; e1; e2] -> EBase (err_text (err_of e1) @ [byte_of_int 10] @ err_text (err_of e2))
   | s -> failwith ("err_of: " ^ show_sexp s)
 
 let val_of (s : sexp) : value = match s with
